@@ -96,7 +96,7 @@ theorem M_readExact_spec (n : Nat) (d : Dev) :
     rfl
   · rw [if_neg h0]
     obtain ⟨d1, hd1⟩ : ∃ d1 : Dev, (⟨d.buf, d.pos + ((d.buf.drop d.pos).take n).length,
-      d.calls + 1⟩ : Dev) = d1 := ⟨_, rfl⟩
+      d.calls + 1, d.fkind⟩ : Dev) = d1 := ⟨_, rfl⟩
     have hb1 : d1.buf = d.buf := by rw [← hd1]
     have hp1 : d1.pos = d.pos + min n (d.buf.length - d.pos) := by rw [← hd1]; simp only [hlen]
     have hread : M.read n none d = (.ok ((d.buf.drop d.pos).take n), d1) := by rw [← hd1]; rfl
@@ -111,7 +111,7 @@ theorem M_readExact_spec (n : Nat) (d : Dev) :
       · rw [if_neg hz]
         generalize hm : n - ((d.buf.drop d.pos).take n).length = mm
         obtain ⟨d2, hd2⟩ : ∃ d2 : Dev, (⟨d1.buf, d1.pos + ((d1.buf.drop d1.pos).take mm).length,
-          d1.calls + 1⟩ : Dev) = d2 := ⟨_, rfl⟩
+          d1.calls + 1, d1.fkind⟩ : Dev) = d2 := ⟨_, rfl⟩
         have hread2 : M.read mm none d1 = (.ok ((d1.buf.drop d1.pos).take mm), d2) := by
           rw [← hd2]; rfl
         rw [M.bind_of_ok hread2]
